@@ -215,10 +215,14 @@ func (g *vG) referenceDAG(in map[string]any, log *vLog, d *vDecider) (map[string
 	return nil, false
 }
 
-func c02Check(g *vG, useStream bool) {
+func c02Check(g *vG, useStream bool) { c02CheckOpt(g, useStream, true) }
+
+func c02CheckOpt(g *vG, useStream bool, mapOrder bool) {
 	ctx := context.Background()
 	vcfg("fifo", 1)
-	vcfgMapOrderIn("dagChannel).reportSkip")
+	if mapOrder {
+		vcfgMapOrderIn("dagChannel).reportSkip")
+	}
 
 	d := &vDecider{g: g, taken: map[int][]int{}, cntR: map[int]int{}, cntM: map[int]int{}}
 	realLog, refLog := &vLog{}, &vLog{}
@@ -473,7 +477,16 @@ func VerifC02Workflow() {
 		"d": {{"b", "b", 0}, {"c", "c", 0}}, // joins both branch targets
 		END: {{"d", "d", 0}},
 	}, branches: []vBranch{{"a", []string{"b", "c"}}}}
-	switch vchoose("variant", 4) {
+	switch vchoose("variant", 5) {
+	case 4: // data-only dependency on a node that the branch may skip, while another control predecessor triggers the node
+		w = &c02WF{nodes: []string{"a", "d", "e", "m", "n"}, deps: map[string][]c02Dep{
+			"a": {{START, "s", 0}},
+			"d": {{"a", "a", 1}},
+			"e": {{"a", "a", 1}},
+			"m": {{"d", "d", 0}},
+			"n": {{"m", "m", 0}, {"e", "e", 0}, {"d", "dd", 1}},
+			END: {{"n", "n", 0}},
+		}, branches: []vBranch{{"a", []string{"d", "e"}}}}
 	case 1: // control-only dependency of d on a
 		w.deps["d"] = append(w.deps["d"], c02Dep{"a", "", 2})
 	case 2: // data-only dependency of END on a, END also a branch target
@@ -483,4 +496,47 @@ func VerifC02Workflow() {
 		w.deps["d"] = []c02Dep{{"b", "", 2}, {"c", "", 2}}
 	}
 	c02CheckWF(w)
+}
+
+// generic acyclic family (thorough): 3 nodes ordered a<b<c, every subset of the 9 forward edges, optional branches
+func VerifC02Generic() {
+	g := &vG{nodes: []string{"a", "b", "c"}}
+	cands := [][2]string{{START, "a"}, {START, "b"}, {START, "c"}, {"a", "b"}, {"a", "c"}, {"a", END}, {"b", "c"}, {"b", END}, {"c", END}}
+	for _, e := range cands {
+		if vchoose("edge", 2) == 1 {
+			g.edges = append(g.edges, e)
+		}
+	}
+	switch vchoose("branch", 3) {
+	case 1:
+		g.branches = []vBranch{{"a", []string{"b", "c"}}}
+	case 2:
+		g.branches = []vBranch{{START, []string{"a", "b"}}, {"a", []string{"c", END}}}
+	}
+	// outside the claim: a node that is both a plain-edge successor and a branch target of the same source
+	// (the statement does not say which of the two relations wins)
+	for _, b := range g.branches {
+		for _, t := range b.targets {
+			for _, e := range g.edges {
+				vassume(!(e[0] == b.from && e[1] == t))
+			}
+		}
+	}
+	vassume(len(g.edges) >= 2 && len(g.edges) <= 8)
+	// outside the claim: nodes without any incoming connection (eino treats them as always ready)
+	for _, n := range g.nodes {
+		in, out := false, false
+		for _, e := range g.edges {
+			in = in || e[1] == n
+			out = out || e[0] == n
+		}
+		for _, b := range g.branches {
+			out = out || b.from == n
+			for _, t := range b.targets {
+				in = in || t == n
+			}
+		}
+		vassume(in && out)
+	}
+	c02CheckOpt(g, false, false)
 }
